@@ -265,7 +265,8 @@ def set_field(ctx, obj, attr, val):
     from .seqs import SymDict
     if isinstance(obj, SObj):
         if attr in obj.slots or ctx.class_lookup(obj.cls, attr).__class__.__name__ == "member_descriptor":
-            was = obj.frozen
+            if obj.frozen and obj.mutable_elem:
+                ctx.bump_elem(obj)
             obj.slots[attr] = val
         elif isinstance(obj.idict, SymDict):
             obj.idict.set(ctx, attr, val)
